@@ -567,8 +567,8 @@ func c09Mutate(r *rand.Rand, ci any) []any {
 
 func init() {
 	register(&Prop{
-		ID: "C09",
-		Rule: "destinations: reflect.StructOf shapes (2-8 fields, nesting depth <=3; string/int/int8/uint16/bool, pointers, slices, nested and embedded structs and pointers to structs, map / interface / unmarshaler / unexported fields; tagged for a random subset of {param,query,form,header}, untagged, or tagged differently per source), 7 hand-written catalogue types (embedded named / pointer / tagged embedded, unexported, unmarshalers, map and interface fields, mass-assignment), map[string]T and non-struct destinations; random initial values; requests: BindPathParams / BindQueryParams / BindHeaders / c.Bind x 10 method spellings x 26 Content-Type spellings x {no body, urlencoded, multipart, JSON, XML, junk} x ContentLength {exact, -1, 0}; keys = tags of the source, tags of OTHER sources, Go field names, json names, case variants, Unicode look-alikes, junk; the same field addressed through 2-3 sources at once; non-trivial = some applied source carries a key equal (under folding) to a tag of a reachable field; distinct = distinct model op lines",
+		ID:             "C09",
+		Rule:           "destinations: reflect.StructOf shapes (2-8 fields, nesting depth <=3; string/int/int8/uint16/bool, pointers, slices, nested and embedded structs and pointers to structs, map / interface / unmarshaler / unexported fields; tagged for a random subset of {param,query,form,header}, untagged, or tagged differently per source), 7 hand-written catalogue types (embedded named / pointer / tagged embedded, unexported, unmarshalers, map and interface fields, mass-assignment), map[string]T and non-struct destinations; random initial values; requests: BindPathParams / BindQueryParams / BindHeaders / c.Bind x 10 method spellings x 26 Content-Type spellings x {no body, urlencoded, multipart, JSON, XML, junk} x ContentLength {exact, -1, 0}; keys = tags of the source, tags of OTHER sources, Go field names, json names, case variants, Unicode look-alikes, junk; the same field addressed through 2-3 sources at once; non-trivial = some applied source carries a key equal (under folding) to a tag of a reachable field; distinct = distinct model op lines",
 		New:            func() any { return &c09Case{} },
 		Gen:            c09Gen,
 		Run:            c09Run,
